@@ -17,6 +17,7 @@ fn tricky_values() -> Vec<Val> {
         " a", "a ", "a: b", "- a", "#c", "0x10", "1e3", ".5", "-", "a\nb", "tab\there", "é日本", "yes", "no",
         "on", "off", "=1", ">=2", "<1.5", "i", "ia", "{a: b}", "[a]", "!tag", "&anchor", "*alias", "%", "@", "`",
         "'", "\"", "a'b", "a\"b", "\\", "0", "-0", "+1", "1_000", "0o7", ".inf", ".nan", "null ", "Null", "TRUE",
+        "10\u{a0}000", "\u{a0}", "a\u{a0}*", "\u{feff}a", "a\u{feff}", "a\u{2028}b", "a\u{85}b", "a\u{0}b", "\u{7f}", "a\rb", "\u{200b}", "a\u{1b}[0m", "<<",
     ]
     .iter()
     .map(|x| st(x))
